@@ -55,6 +55,14 @@ class Ref(ast.NodeTransformer):
     def __init__(self, events):
         self.ev = set(events)
         self.poss = []
+        self.in_chain = False      # inside the object / callee part of an attribute / subscript / call chain
+
+    def symbol(self, node, inside, expr):
+        """before_/after_load_complex_symbol bracket the OUTERMOST link of a chain of attribute loads, subscript loads and calls
+        (call arguments and subscript indices start afresh); the before event is deferred"""
+        if inside:
+            return expr
+        return self.after("after_load_complex_symbol", node, self.before("before_load_complex_symbol", node, expr))
 
     def p(self, node):
         self.poss.append(pos(node))
@@ -105,24 +113,31 @@ class Ref(ast.NodeTransformer):
         return self.after("after_compare", node, self.before("before_compare", node, new))
 
     def visit_Call(self, node):
+        inside = self.in_chain
+        self.in_chain = True
         f = self.visit(node.func)
+        self.in_chain = False                       # arguments start afresh
         f = self.after("before_call", node, f)
         args = []
         for a in node.args:
             if isinstance(a, ast.Starred):
-                args.append(ast.Starred(value=self.after("after_argument", a.value, self.visit(a.value)), ctx=a.ctx))
+                args.append(ast.Starred(value=self.after("after_argument", a.value, self.before("before_argument", a.value, self.visit(a.value))), ctx=a.ctx))
             else:
-                args.append(self.after("after_argument", a, self.visit(a)))
-        kws = [ast.keyword(arg=k.arg, value=self.after("after_argument", k.value, self.visit(k.value))) for k in node.keywords]
+                args.append(self.after("after_argument", a, self.before("before_argument", a, self.visit(a))))
+        kws = [ast.keyword(arg=k.arg, value=self.after("after_argument", k.value, self.before("before_argument", k.value, self.visit(k.value)))) for k in node.keywords]
+        self.in_chain = inside
         new = ast.copy_location(ast.Call(func=f, args=args, keywords=kws), node)
-        return self.after("after_call", node, new)
+        return self.symbol(node, inside, self.after("after_call", node, new))
 
     def visit_Attribute(self, node):
+        inside = self.in_chain
+        self.in_chain = True
         v = self.visit(node.value)
+        self.in_chain = inside
         if isinstance(node.ctx, ast.Load):
             v = self.after("before_attribute_load", node, v)
             new = ast.copy_location(ast.Attribute(value=v, attr=node.attr, ctx=node.ctx), node)
-            return self.after("after_attribute_load", node, new)
+            return self.symbol(node, inside, self.after("after_attribute_load", node, new))
         evt = "before_attribute_store" if isinstance(node.ctx, ast.Store) else "before_attribute_del"
         v = self.after(evt, node, v)
         return ast.copy_location(ast.Attribute(value=v, attr=node.attr, ctx=node.ctx), node)
@@ -130,8 +145,12 @@ class Ref(ast.NodeTransformer):
     def visit_Subscript(self, node):
         # pyccolo's before_subscript_* events carry the evaluated subscript too, so they fire once BOTH the object and the
         # subscript have been evaluated (DESIGN section 11): the object is parked, the probe fires after the slice
+        inside = self.in_chain
+        self.in_chain = True
         v = self.visit(node.value)
+        self.in_chain = False                       # the index starts afresh
         s = self.visit(node.slice)
+        self.in_chain = inside
         evt = {ast.Load: "before_subscript_load", ast.Store: "before_subscript_store", ast.Del: "before_subscript_del"}[type(node.ctx)]
         if evt in self.ev:
             site = const(len(self.poss))
@@ -139,7 +158,7 @@ class Ref(ast.NodeTransformer):
             s = call(Q, const(evt), self.p(node), site, s)
         new = ast.copy_location(ast.Subscript(value=v, slice=s, ctx=node.ctx), node)
         if isinstance(node.ctx, ast.Load):
-            return self.after("after_subscript_load", node, new)
+            return self.symbol(node, inside, self.after("after_subscript_load", node, new))
         return new
 
     def _collection(self, node, elt_evt, lit_evt):
@@ -188,9 +207,12 @@ class Ref(ast.NodeTransformer):
     visit_ListComp = visit_SetComp = visit_GeneratorExp = visit_DictComp = _comp
 
     # ---- statements
-    def body(self, stmts, module=False):
+    def body(self, stmts, module=False, docstring=False):
         out = []
-        for s in stmts:
+        for i, s in enumerate(stmts):
+            if docstring and i == 0 and isinstance(s, ast.Expr) and isinstance(s.value, ast.Constant) and isinstance(s.value.value, str):
+                out.append(s)                   # the docstring of a class or module: not an executed statement, no events
+                continue
             if isinstance(s, (ast.Global, ast.Nonlocal)) or (isinstance(s, ast.ImportFrom) and s.module == "__future__"):
                 out.append(s)
                 continue
@@ -204,7 +226,7 @@ class Ref(ast.NodeTransformer):
         return out
 
     def visit_Module(self, node):
-        node.body = self.body(node.body, module=True)
+        node.body = self.body(node.body, module=True, docstring=True)
         return node
 
     def visit_Expr(self, node):
@@ -280,7 +302,7 @@ class Ref(ast.NodeTransformer):
     def visit_ClassDef(self, node):
         node.bases = [self.visit(b) for b in node.bases]
         node.keywords = [ast.keyword(arg=k.arg, value=self.visit(k.value)) for k in node.keywords]
-        node.body = self.body(node.body)
+        node.body = self.body(node.body, docstring=True)
         node.decorator_list = [self.visit(d) for d in node.decorator_list]
         return node
 
@@ -331,7 +353,9 @@ SUPPORTED = {
     "after_while_loop_iter", "before_function_body", "after_function_execution", "decorator", "exception_handler_type",
     # deferred before-expression events (delivered before anything of the anchor is evaluated; they carry a thunk)
     "before_binop", "before_compare", "before_fstring", "before_list_literal", "before_tuple_literal", "before_set_literal", "before_dict_literal",
-    "before_lambda", "before_assign_rhs", "before_augassign_rhs", "before_return", "before_for_iter",
+    "before_lambda", "before_assign_rhs", "before_augassign_rhs", "before_return", "before_for_iter", "before_argument", "before_load_complex_symbol",
+    # the outermost link of an attribute / subscript / call chain in load position
+    "after_load_complex_symbol",
 }
 
 
